@@ -14,7 +14,7 @@ from checks import raire_common as rc
 from vlib import irv
 
 RULE = ("seeded random + structured ballot profiles (partial rankings of every length, blanks, cards lacking the contest, "
-        "ties at the first / last round, symmetric profiles), n = 2..6 candidates, reported "
+        "ties at the first / last round, symmetric profiles), n = 2..7 candidates (8 in the thorough tier), reported "
         "winner right / runner-up / random, both difficulty functions, order hint none / true / wrong; non-trivial = "
         "n >= 3 and the audit is possible; distinct = hash of the case")
 REQUIRED = ["profiles_run", "auditable", "not_auditable", "assertions_recounted", "orders_checked", "wrong_winner_cases",
